@@ -324,6 +324,9 @@ func runRoundTrip(c *Ctx, closure bool) {
 		// ---------------- encoding shortcut
 		c.encodingShortcut(info)
 		c.encodingWriter(info)
+
+		// ---- every closepath the encoder writes comes back as a ClosePath (ext_a.go)
+		c.closePathRule()
 	}
 
 	// ---------------- defaults vs elision conditions (C09 and C10)
@@ -332,10 +335,13 @@ func runRoundTrip(c *Ctx, closure bool) {
 	c.positionTracking(info)
 	// ---------------- no unescaped string reaches the program text
 	c.templateEscaping(tk)
+	// ---- a value on a comment line cannot end the line (ext_a.go)
+	c.commentSanitiser()
 
 	if closure {
 		c.nameProvenance()
 		c.roundingSources()
+		c.quantisationRule() // ext_a.go
 		// the one lossy number path must be a projection, or the second write/read cycle moves the
 		// coordinates again: appendNumber takes the best of ALL denominators 1..107 (a value p/q
 		// that was read back is then reproduced with error 0, nothing nearer exists) and returns
